@@ -1,5 +1,6 @@
 import Mathlib.Tactic.Ring
 import Mathlib.Tactic.Linarith
+import Mathlib.Tactic.LinearCombination
 import Mathlib.Algebra.Order.Field.Basic
 import Mathlib.Algebra.BigOperators.Group.Finset.Basic
 import Mathlib.Algebra.BigOperators.Group.Finset.Sigma
@@ -24,6 +25,8 @@ namespace PysphVerif.C09
 open PysphVerif.PairSym PysphVerif.Gen.C09
 set_option linter.unusedSectionVars false
 set_option linter.unusedVariables false
+set_option linter.unusedTactic false
+set_option linter.unreachableTactic false
 
 /-! ## sums over a symmetric neighbour relation -/
 
@@ -71,22 +74,24 @@ theorem sum_pair_antisym_eq_zero {ι : Type*} [Fintype ι] [DecidableEq ι]
   sum_pair_antisym_eq_zero_of_no_two_torsion no_two_torsion nbr hsymm F hF
 
 /-- One component of the total moment of a pair-antisymmetric *central*
-interaction (`(FX, FY) i j = c • ((X, Y) i − (X, Y) j)`) vanishes. -/
+interaction (`(X i − X j)·FY i j = (Y i − Y j)·FX i j`, i.e. the force is
+parallel to the separation, degenerate cases included) vanishes. -/
 theorem torque_component_zero {ι : Type*} [Fintype ι] [DecidableEq ι]
     (nbr : ι → Finset ι) (hsymm : ∀ i j, j ∈ nbr i → i ∈ nbr j)
     (X Y : ι → K) (FX FY : ι → ι → K)
     (hX : ∀ i j, j ∈ nbr i → FX i j = -FX j i)
     (hY : ∀ i j, j ∈ nbr i → FY i j = -FY j i)
-    (hc : ∀ i j, j ∈ nbr i → ∃ c, FX i j = c * (X i - X j) ∧ FY i j = c * (Y i - Y j)) :
+    (hc : ∀ i j, j ∈ nbr i → (X i - X j) * FY i j = (Y i - Y j) * FX i j) :
     ∑ i, ∑ j ∈ nbr i, (X i * FY i j - Y i * FX i j) = 0 := by
   apply sum_pair_antisym_eq_zero nbr hsymm
   intro i j hj
-  obtain ⟨c, h1, h2⟩ := hc i j hj
   have hx := hX i j hj
   have hy := hY i j hj
-  have e1 : FX j i = -(c * (X i - X j)) := by rw [← h1, hx]; ring
-  have e2 : FY j i = -(c * (Y i - Y j)) := by rw [← h2, hy]; ring
-  rw [h1, h2, e1, e2]; ring
+  have h := hc i j hj
+  have e1 : FX j i = -FX i j := by rw [hx]; ring
+  have e2 : FY j i = -FY i j := by rw [hy]; ring
+  rw [e1, e2]
+  linear_combination h
 
 /-! ## the neighbour loop as a fold -/
 
@@ -139,8 +144,8 @@ theorem angular_momentum_of_pair {ι σ : Type*} [Fintype ι] [DecidableEq ι]
                 = -(m j * (getX (step j acc' i) - getX acc')))
     (hantiY : ∀ i j acc acc', m i * (getY (step i acc j) - getY acc)
                 = -(m j * (getY (step j acc' i) - getY acc')))
-    (hcentral : ∀ i j acc, ∃ c, getX (step i acc j) - getX acc = c * (X i - X j)
-                ∧ getY (step i acc j) - getY acc = c * (Y i - Y j)) :
+    (hcentral : ∀ i j acc, (X i - X j) * (getY (step i acc j) - getY acc)
+                = (Y i - Y j) * (getX (step i acc j) - getX acc)) :
     ∑ i, m i * (X i * getY ((nbrs i).foldl (step i) (init i))
                 - Y i * getX ((nbrs i).foldl (step i) (init i))) = 0 := by
   classical
@@ -159,8 +164,8 @@ theorem angular_momentum_of_pair {ι σ : Type*} [Fintype ι] [DecidableEq ι]
     (fun i j _ => hantiX i j (init i) (init j))
     (fun i j _ => hantiY i j (init i) (init j))
     (fun i j _ => by
-      obtain ⟨c, h1, h2⟩ := hcentral i j (init i)
-      exact ⟨m i * c, by rw [h1]; ring, by rw [h2]; ring⟩)
+      have h := hcentral i j (init i)
+      linear_combination (m i) * h)
   rw [← key]
   refine Finset.sum_congr rfl (fun i _ => ?_)
   rw [hfold getX hinitX haddX i, hfold getY hinitY haddY i, Finset.mul_sum, Finset.mul_sum,
@@ -239,6 +244,54 @@ theorem DWJ_2_swap : pre_DWJ_2 o k b a = -(pre_DWI_2 o k a b) := by
   simp only [pre_DWI_2, pre_DWJ_2, hk.gz_eq, RIJ_swap o k a b, XIJ_2_swap o k a b]; ring
 
 end swap
+
+section shape
+variable (o : Ops K) (k : Kern K) (a b : P K) {w g : K → K → K} (hk : Radial k w g)
+include hk
+theorem DWIJ_0_eq : pre_DWIJ_0 o k a b = g (pre_RIJ o k a b) (pre_HIJ o k a b) * pre_XIJ_0 o k a b := by
+  simp only [pre_DWIJ_0, hk.gx_eq]
+theorem DWIJ_1_eq : pre_DWIJ_1 o k a b = g (pre_RIJ o k a b) (pre_HIJ o k a b) * pre_XIJ_1 o k a b := by
+  simp only [pre_DWIJ_1, hk.gy_eq]
+theorem DWIJ_2_eq : pre_DWIJ_2 o k a b = g (pre_RIJ o k a b) (pre_HIJ o k a b) * pre_XIJ_2 o k a b := by
+  simp only [pre_DWIJ_2, hk.gz_eq]
+theorem DWI_0_eq : pre_DWI_0 o k a b = g (pre_RIJ o k a b) a.h * pre_XIJ_0 o k a b := by
+  simp only [pre_DWI_0, hk.gx_eq]
+theorem DWI_1_eq : pre_DWI_1 o k a b = g (pre_RIJ o k a b) a.h * pre_XIJ_1 o k a b := by
+  simp only [pre_DWI_1, hk.gy_eq]
+theorem DWI_2_eq : pre_DWI_2 o k a b = g (pre_RIJ o k a b) a.h * pre_XIJ_2 o k a b := by
+  simp only [pre_DWI_2, hk.gz_eq]
+theorem DWJ_0_eq : pre_DWJ_0 o k a b = g (pre_RIJ o k a b) b.h * pre_XIJ_0 o k a b := by
+  simp only [pre_DWJ_0, hk.gx_eq]
+theorem DWJ_1_eq : pre_DWJ_1 o k a b = g (pre_RIJ o k a b) b.h * pre_XIJ_1 o k a b := by
+  simp only [pre_DWJ_1, hk.gy_eq]
+theorem DWJ_2_eq : pre_DWJ_2 o k a b = g (pre_RIJ o k a b) b.h * pre_XIJ_2 o k a b := by
+  simp only [pre_DWJ_2, hk.gz_eq]
+end shape
+
+theorem XIJ_0_def (o : Ops K) (k : Kern K) (a b : P K) : a.x - b.x = pre_XIJ_0 o k a b := rfl
+theorem XIJ_1_def (o : Ops K) (k : Kern K) (a b : P K) : a.y - b.y = pre_XIJ_1 o k a b := rfl
+theorem XIJ_2_def (o : Ops K) (k : Kern K) (a b : P K) : a.z - b.z = pre_XIJ_2 o k a b := rfl
+
+/-- express every kernel gradient of the pair `(a, b)` as `g(r,h)·XIJ` and the
+separation `a.x − b.x` as `XIJ` -/
+macro "c09_shape" o:term:max k:term:max a:term:max b:term:max hk:term:max : tactic =>
+  `(tactic| simp only [XIJ_0_def $o $k $a $b, XIJ_1_def $o $k $a $b, XIJ_2_def $o $k $a $b,
+      DWIJ_0_eq $o $k $a $b $hk, DWIJ_1_eq $o $k $a $b $hk, DWIJ_2_eq $o $k $a $b $hk,
+      DWI_0_eq $o $k $a $b $hk, DWI_1_eq $o $k $a $b $hk, DWI_2_eq $o $k $a $b $hk,
+      DWJ_0_eq $o $k $a $b $hk, DWJ_1_eq $o $k $a $b $hk, DWJ_2_eq $o $k $a $b $hk])
+
+/-- normalise signs and tuple projections after unfolding a generated body -/
+macro "c09_norm" : tactic =>
+  `(tactic| try simp only [apply_ite Prod.fst, apply_ite Prod.snd, neg_div, neg_mul, mul_neg, neg_neg,
+      Nat.cast_zero, Nat.cast_one, Nat.cast_ofNat])
+
+/-- close a goal that is a polynomial identity on every branch of the
+(symmetric) conditions -/
+macro "c09_close" : tactic =>
+  `(tactic| first
+    | (split_ifs <;> (try simp only [neg_div, neg_mul, mul_neg, neg_neg] at *) <;>
+        first | contradiction | ring1 | (ring_nf; done) | (exfalso; linarith))
+    | ring1 | (ring_nf; done))
 
 /-- rewrite every precomputed symbol of the pair `(b, a)` into the one of `(a, b)` -/
 macro "c09_swap" o:term:max k:term:max a:term:max b:term:max hk:term:max : tactic =>
